@@ -344,5 +344,9 @@ m("C06", "C06-resume-finished-by-empty-stack", "R06-resumeapi:Resume:finished-to
 for _p in ("C06", "C12"):
     m(_p, _p + "-resume-values-moved-unchecked", "R06-resumeapi:resumeThread:room-checked-before-the-values-move", ("coroutinelib.go", "\t\tif !th.reg.canHold(nargs) {\n\t\t\t// the values of this resume do not fit into the suspended coroutine's registry: refused before\n\t\t\t// anything is moved (an overflow half-way left the values on its stack and the coroutine unusable)\n\t\t\tmsg := \"registry overflow\"\n\t\t\tif wrapped {\n\t\t\t\tL.RaiseError(msg)\n\t\t\t\treturn 0\n\t\t\t}\n\t\t\tL.Push(LFalse)\n\t\t\tL.Push(LString(msg))\n\t\t\treturn 2\n\t\t}\n", ""))
 m("C17", "C17-temporary-for-index-zero", "R17-scope:findLocal:temporary-only-for-a-positive-index", ("state.go", "\tif no > 0 && top-frame.LocalBase >= no {", "\tif top-frame.LocalBase >= no {"))
+
+m("C20", "C20-package-table-through-loaded", "R20-order:packageTable:own-registry-slot", ("loadlib.go", "\treturn L.GetField(L.Get(RegistryIndex), \"_PACKAGE\")\n", "\treturn L.GetField(L.GetField(L.Get(RegistryIndex), \"_LOADED\"), LoadLibName)\n"))
+for _p in ("C11", "C05"):
+    m(_p, _p + "-pcall-does-not-consult-the-context", "R11-exit:PCall:context-consulted-after-the-call", ("state.go", "\tls.Call(nargs, nret)\n\tif ls.ctx != nil && ls.ctx.Err() != nil {\n", "\tls.Call(nargs, nret)\n\tif false && ls.ctx != nil && ls.ctx.Err() != nil {\n"))
 if __name__ == "__main__":
     main()
